@@ -885,7 +885,9 @@ func (g *gen) apiStmt(d int) string {
 // apiFunc is family g: a function whose body is a sequence of API call shapes.
 func (g *gen) apiFunc() {
 	g.needExoHelpers()
-	if g.chance(20, "pkglevel") {
+	// (only in packages without tests: `go test` runs the initialisers of the package, and the
+	// call shapes are not meant to be executed)
+	if !g.cfg.Test && g.chance(20, "pkglevel") {
 		g.apiPackageLevel()
 		return
 	}
